@@ -53,6 +53,12 @@ CLAIMS["C10"] = dict(
   text="Decides the mechanisms the durability property rests on for every path of the current source: O_APPEND|O_CREATE without O_TRUNC, exactly one write carrying record+terminator, tail inspection or separator before the write, truthful error, unbounded reader token size, tolerant read loop, writer/reader schema agreement. The enumeration of crash points and OS atomicity are not decided.",
   ref="§5 C10")
 
+CLAIMS["C19"] = dict(
+  level="other",
+  technique="static analysis: writer/reader table extraction from SSA (case constants, emitted constants, consumed length), constant propagation through Encontrol, format-verb and guard checks, value slices of dump output",
+  text="Decides agreement of the escape writer's table with the unescape reader's cases (same rune, same consumed length), the hex fallback's verb/bound/composition, that numeric reader cases consume the digits they decode, that dumps escape what they print and spell booleans as the parser reads them. Round-trip equality for all strings is value-level and not decided.",
+  ref="§5 C19")
+
 NA_REASONS = {
  "C15": "Cycle coverage is arithmetic over a grid whose shape is computed at run time from candidate widths and terminal width; no pairing/ownership/ordering/table clause is a necessary condition, and a bounds proof of rows[y][x] needs the same run-time shape invariants. A check would be a brittle proxy (DESIGN.md §5 C15, §8).",
 }
